@@ -1,6 +1,8 @@
 /- Driver/Asf.lean — ASF files: save, delete, two saves through one object, the object walk with the
 loaded tags, the decision logic of ASF.save, the strict reader -/
 import MutagenModel.Model.Container.Asf
+import MutagenModel.Model.Container.AsfM
+import Driver.FileOps
 import Driver.Util
 import Driver.FlacC
 namespace Driver
@@ -99,6 +101,17 @@ def asfOp (a : Args) : String :=
     match distribute (asfTagsOf (a.str "tags" "-")) with
     | .error e => s!"err {e.name}"
     | .ok d => s!"ok cd={asfTagsStr d.cd} ecd={asfTagsStr d.ecd} m={asfTagsStr d.mo} ml={asfTagsStr d.ml}"
+  -- ASF.save / ASF.delete as programs on the file object, in a fault environment (`fail=<i>:<err>`, `short=<i>:<k>`,
+  -- `cap=<n>`, `leak=<n>`, `B=<buffer size>`); the object tree is that of a fault-free load of `data`
+  | "savem" =>
+    match parseFull (a.bytes "data") with
+    | .error e => s!"err-load {e.name}"
+    | .ok objs =>
+      showResult (saveM (a.nat "B" 1048576) objs (asfTagsOf (a.str "tags" "-")) (padOf a) (envOf a) { data := a.bytes "data", pos := a.nat "pos" 0 })
+  | "deletem" =>
+    match parseFull (a.bytes "data") with
+    | .error e => s!"err-load {e.name}"
+    | .ok objs => showResult (deleteM (a.nat "B" 1048576) objs (envOf a) { data := a.bytes "data", pos := a.nat "pos" 0 })
   | "read" =>
     match readLayout (a.bytes "data") with
     | none => "ok wellformed=0"
